@@ -175,6 +175,21 @@ def make_cases(ctx):
                         role, sid, ver[0], ver[1], group, feat, rep), dict(
                         role=role, sid=sid, ver=ver, key="rsa", group=group,
                         feat=feat)
+            # resumption per record-protection kind (EtM and EMS are carried
+            # over differently for CBC, AEAD and stream suites)
+            if ver < (3, 4):
+                for v2 in ((3, 3), (3, 1)):
+                    for cname in ("AES_128_CBC_SHA", "AES_256_CBC_SHA",
+                                  "AES_128_GCM_SHA256",
+                                  "CHACHA20_POLY1305_SHA256"):
+                        cand = [c for c in cells if c[1] == v2 and
+                                suites.TABLE[c[0]].name.endswith(cname) and
+                                suites.TABLE[c[0]].kx in ("ECDHE_RSA", "RSA")]
+                        for sid, _ in cand[:2]:
+                            yield "resume-%s-%04x-%d%d" % (
+                                role, sid, v2[0], v2[1]), dict(
+                                role=role, sid=sid, ver=v2, key="rsa",
+                                group="secp256r1", feat="resume")
             # client authentication with every client key type
             for ck in ("ecdsa", "ed25519", "ed448", "ecdsa384", "rsapss"):
                 sid, _ = rng.choice(mine)
